@@ -71,7 +71,7 @@ pub fn integer_id(push_state: &mut PushState, _instruction_set: &InstructionCach
 pub fn integer_modulus(push_state: &mut PushState, _instruction_set: &InstructionCache) {
     if let Some(ivals) = push_state.int_stack.pop_vec(2) {
         if ivals[1] != 0i32 {
-            push_state.int_stack.push(ivals[0] % ivals[1]);
+            push_state.int_stack.push(ivals[0].wrapping_rem(ivals[1]));
         }
     }
 }
@@ -79,14 +79,14 @@ pub fn integer_modulus(push_state: &mut PushState, _instruction_set: &Instructio
 /// INTEGER.*: Pushes the product of the top two items.
 fn integer_mult(push_state: &mut PushState, _instruction_cache: &InstructionCache) {
     if let Some(ivals) = push_state.int_stack.pop_vec(2) {
-        push_state.int_stack.push(ivals[0] * ivals[1]);
+        push_state.int_stack.push(ivals[0].wrapping_mul(ivals[1]));
     }
 }
 
 /// INTEGER.+: Pushes the sum of the top two items.
 fn integer_add(push_state: &mut PushState, _instruction_cache: &InstructionCache) {
     if let Some(ivals) = push_state.int_stack.pop_vec(2) {
-        push_state.int_stack.push(ivals[0] + ivals[1]);
+        push_state.int_stack.push(ivals[0].wrapping_add(ivals[1]));
     }
 }
 
@@ -94,7 +94,7 @@ fn integer_add(push_state: &mut PushState, _instruction_cache: &InstructionCache
 /// item.
 fn integer_subtract(push_state: &mut PushState, _instruction_cache: &InstructionCache) {
     if let Some(ivals) = push_state.int_stack.pop_vec(2) {
-        push_state.int_stack.push(ivals[0] - ivals[1]);
+        push_state.int_stack.push(ivals[0].wrapping_sub(ivals[1]));
     }
 }
 
@@ -103,7 +103,7 @@ fn integer_subtract(push_state: &mut PushState, _instruction_cache: &Instruction
 fn integer_divide(push_state: &mut PushState, _instruction_cache: &InstructionCache) {
     if let Some(ivals) = push_state.int_stack.pop_vec(2) {
         if ivals[1] != 0i32 {
-            push_state.int_stack.push(ivals[0] / ivals[1]);
+            push_state.int_stack.push(ivals[0].wrapping_div(ivals[1]));
         }
     }
 }
@@ -135,7 +135,7 @@ fn integer_greater(push_state: &mut PushState, _instruction_cache: &InstructionC
 /// INTEGER.ABS: Pushes the absolute value of the top INTEGER item.
 fn integer_abs(push_state: &mut PushState, _instruction_cache: &InstructionCache) {
     if let Some(ival) = push_state.int_stack.pop() {
-        push_state.int_stack.push(i32::abs(ival));
+        push_state.int_stack.push(ival.wrapping_abs());
     }
 }
 
